@@ -426,7 +426,7 @@ def valgrind_block(prop, tier, seed, part, start, count):
     binary = os.path.join(B.BUILD, "gzero", "simzone")
     cmd = VG + [binary, "worker", "--prop", prop, "--tier", tier, "--seed", str(seed), "--start", str(start), "--count", str(count)] + (["--part", part] if part else [])
     try:
-        p = subprocess.run(cmd, capture_output=True, text=True, env=_env(), timeout=1800, errors="replace")
+        p = subprocess.run(cmd, capture_output=True, text=True, env=dict(_env(), VERIF_WATCHDOG_SCALE="60"), timeout=3000, errors="replace")
     except subprocess.TimeoutExpired:
         return None, "timeout"
     return p.returncode, p.stderr
@@ -439,7 +439,7 @@ def valgrind_case(case, timeout=600):
     with os.fdopen(fd, "w") as f:
         json.dump(case, f)
     try:
-        p = subprocess.run(VG + [binary, "replay", path], capture_output=True, text=True, env=_env(), timeout=timeout, errors="replace")
+        p = subprocess.run(VG + [binary, "replay", path], capture_output=True, text=True, env=dict(_env(), VERIF_WATCHDOG_SCALE="60"), timeout=timeout, errors="replace")
         cls = classify_valgrind(p.stderr) if p.returncode == 99 else None
         return ([cls] if cls else []), dict(rc=p.returncode, stderr=p.stderr[-4000:])
     except subprocess.TimeoutExpired:
